@@ -150,6 +150,11 @@ def to_type(j):
         return user_cls(j["accept"], j.get("faults") or {})
     if t == "arr":
         cat = getattr(jaxtyping, j.get("cat", "Shaped"))
+        if j.get("split") is not None:
+            # the same axes written as a NESTED annotation: the first `split` axes on the outside, the rest inside
+            toks = j["dims"].split()
+            k = j["split"]
+            return cat[cat[ARRAY_CLASSES[j.get("cls", "")], " ".join(toks[k:])], " ".join(toks[:k])]
         return cat[ARRAY_CLASSES[j.get("cls", "")], j["dims"]]
     if t == "tuple":
         return tuple[tuple(to_type(x) for x in j["ts"])] if j["ts"] else tuple[()]
@@ -272,6 +277,11 @@ class Interp:
                 self.obs.append({"o": "outcome", "v": "exc"})
             except UserBaseExc:
                 self.obs.append({"o": "outcome", "v": "baseexc"})
+            except (SystemExit, MemoryError, KeyboardInterrupt):
+                raise
+            except BaseException as e:  # noqa: BLE001
+                # the library's own bookkeeping failed (e.g. `pop from empty list` when leaving the block): an observation
+                self.obs.append({"o": "outcome", "v": "internal:" + type(e).__name__})
             self.frame_checks.append(("ctx", before, self._snap(), p))
         elif op == "call":
             bare = bool(jaxtyping.config.jaxtyping_disable or p.get("notc")) and p.get("kind", "new") == "new"
